@@ -207,6 +207,8 @@ type World struct {
 	OldEvery int
 	// LastTruncateErr: result of the most recent TruncateChecked
 	LastTruncateErr error
+	// NearExpiry: the moment the youngest "issued seven days ago less a few seconds" transaction leaves the seven day window
+	NearExpiry time.Time
 }
 
 type slowVerifier struct {
@@ -494,6 +496,13 @@ func (w *World) NewTrx(from *Actor, to string, amount spice.Melange, data []byte
 	if w.OldEvery > 0 && w.subjectN%w.OldEvery == 0 {
 		// issued long ago (8 days to more than a year): the ledger puts no age limit on what it seals
 		at = at.Add(-time.Duration(8+(w.subjectN*37)%400) * 24 * time.Hour)
+	} else if w.OldEvery > 0 && w.subjectN%(3*w.OldEvery) == 1 {
+		// issued seven days ago less a few seconds: still inside the window a receiver may counter-sign in when it is
+		// sealed, outside it a moment later (NearExpiry is the latest such moment)
+		at = time.Now().AddDate(0, 0, -7).Add(2500 * time.Millisecond)
+		if e := at.AddDate(0, 0, 7); e.After(w.NearExpiry) {
+			w.NearExpiry = e
+		}
 	}
 	return ForgeTrx(from, to, fmt.Sprintf("t%d", w.subjectN), data, amount, at)
 }
